@@ -1529,6 +1529,8 @@ def check_C06(ctx):
             if status == 'failed':
                 ctx.rep.violation({'kind': 'cbmc', 'function': fn, 'bound': n, 'detail': detail, 'command': ' '.join(cmd),
                                    'explanation': 'cbmc found a string of at most %d bytes on which %s violates a pointer / bounds / overflow / unwinding / leak assertion; the assignments give the input' % (n, fn)})
+            elif status == 'inconclusive':
+                ctx.rep.notes.append('cbmc(%s): %s — the bounded run says nothing about this source; not a violation' % (fn, detail))
             elif status in ('error', 'timeout'):
                 ctx.rep.violation({'kind': 'cbmc', 'function': fn, 'bound': n, 'status': status, 'detail': detail, 'command': ' '.join(cmd),
                                    'explanation': 'cbmc could not complete on the current sources (%s): the bounded exploration of %s is not available' % (status, fn)}, found_input=False)
